@@ -2,11 +2,11 @@
 # confirm a seeded change in its worktree; on success keep it as /verif/seeded/<id>/ and remove the worktree
 # usage: tools/keep_seed.sh <worktree> <id>
 D=$1; ID=$2
-if [ ! -f $D/seed/confirm.log ] || ! grep -q exit_suite $D/seed/confirm.log; then /verif/tools/confirm_seed.sh $D > /dev/null 2>&1; fi
+if [ ! -f $D/seed/confirm.log ] || ! grep -a -q exit_suite $D/seed/confirm.log; then /verif/tools/confirm_seed.sh $D > /dev/null 2>&1; fi
 L=$D/seed/confirm.log
-W=$(grep -c "^exit_without=0" $L); X=$(grep "^exit_with=" $L | grep -vc "=0"); 
-SUM=$(grep "Summary" $L | tail -1)
-BAD=$(grep -E "^\s+(FAIL|TIMEOUT)" $L | grep -v bin_remote_invalidport | grep -v bin_remote_ex002 | wc -l)
+W=$(grep -a -c "^exit_without=0" $L); X=$(grep -a "^exit_with=" $L | grep -a -vc "=0"); 
+SUM=$(grep -a "Summary" $L | tail -1)
+BAD=$(grep -a -E "^\s+(FAIL|TIMEOUT)" $L | grep -v bin_remote_invalidport | grep -v bin_remote_ex002 | wc -l)
 echo "$ID: without_ok=$W with_fails=$X other_failures=$BAD :: $SUM"
 if [ "$W" = 1 ] && [ "$X" = 1 ] && [ "$BAD" = 0 ] && [ -n "$SUM" ]; then
   mkdir -p /verif/seeded/$ID
